@@ -33,10 +33,10 @@ type C15Req struct {
 }
 
 type C15Case struct {
-	Mode   Mode     `json:"mode"` // Streamable modes 0..4 or legacy SSE (5)
-	Chain  []int    `json:"chain"`
-	Split  int      `json:"split"` // the chain is given as WithMiddleware(chain[:split]...), WithMiddleware(chain[split:]...)
-	NSess  int      `json:"nsess"`
+	Mode    Mode       `json:"mode"` // Streamable modes 0..4 or legacy SSE (5)
+	Chain   []int      `json:"chain"`
+	Split   int        `json:"split"` // the chain is given as WithMiddleware(chain[:split]...), WithMiddleware(chain[split:]...)
+	NSess   int        `json:"nsess"`
 	Batches [][]C15Req `json:"batches"` // requests inside one batch are sent concurrently
 }
 
